@@ -17,6 +17,8 @@ pub struct Lane {
     /// did the property's own trigger occur in this run?
     pub nontrivial: fn(&Scenario, &RunResult) -> bool,
     pub rule: &'static str,
+    /// run function other than the simulator (establishment lanes)
+    pub runner: Option<fn(&Scenario, &RunCfg) -> RunResult>,
     /// several runs per index (fault sweeps): returns the cases of this index
     pub expand: Option<fn(&Lane, u64, u64) -> Vec<Case>>,
     /// runs for the quick / thorough tier
@@ -59,6 +61,32 @@ pub fn lanes() -> Vec<Lane> {
     v.push(fault_lane());
     v.push(frame_lane());
     v.push(Lane {
+        prop: "C18",
+        family: "ESTABURL",
+        gen: gen::gen_estab_url,
+        cfg: cfg_default,
+        check: oracle::check_c18,
+        nontrivial: estab_nontrivial,
+        rule: "seeded URL x settings combinations through the real LdapConnAsync::with_settings (paused clock, real loopback sockets) and LdapConn::with_settings (cases without timers): schemes ldap / ldaps / ldapi / unknown / unparsable, host as IPv4, name, bracketed IPv6 or absent, explicit or default port (389 / 636 bound by the harness under a cross-process lock), ldapi socket names needing percent-encoding, empty path, path with port, StartTLS flag, pre-opened TCP / Unix / invalid stream, connection timeout against a stalling peer; non-trivial = the case was not skipped for environment reasons; distinct = distinct (URL shape, outcome class) pairs",
+        runner: Some(crate::estab::run),
+        expand: None,
+        quick: 3_000,
+        thorough: 60_000,
+    });
+    v.push(Lane {
+        prop: "C17",
+        family: "ESTABTLS",
+        gen: gen::gen_estab_tls,
+        cfg: cfg_default,
+        check: oracle::check_c17,
+        nontrivial: estab_nontrivial,
+        rule: "seeded establishment scripts through the real with_settings against a scripted TLS-capable peer (CA and localhost leaf generated at start-up): ldaps and ldap+StartTLS; StartTLS answered with success, non-zero codes, garbage, close, silence (with conn_timeout), success plus an injected cleartext reply for the next message ID; TLS handshake good / refused / garbage / silent; default or CA-trusting connector, no_tls_verify, matching or mismatching host name, pre-opened TCP stream; after a successful establishment one bind inside TLS; non-trivial = not skipped; distinct = distinct (behaviour, configuration, outcome) triples",
+        runner: Some(crate::estab::run),
+        expand: None,
+        quick: 2_000,
+        thorough: 40_000,
+    });
+    v.push(Lane {
         prop: "C11",
         family: "HOSTILE",
         gen: gen::gen_hostile,
@@ -66,6 +94,7 @@ pub fn lanes() -> Vec<Lane> {
         check: oracle::check_c11,
         nontrivial: hostile_nontrivial,
         rule: "seeded HOSTILE scenarios (1-3 pending single operations or searches; one hostile item spliced in at a response frame boundary, followed by the valid replies; the server closes one simulated second after its last byte): random bytes, bit flips, every single-field mutation of a valid frame (outer tag/class/form, message ID missing / wrong tag / constructed / empty, protocolOp missing, inner lengths inflated and truncated, outer length inflated and truncated, operations of the wrong kind for the ID, oversize and indefinite length octets, malformed control lists and result bodies, huge announced length), nesting depths 10 .. 200 000; each run on a thread with a 2 MiB stack inside a supervised worker process; non-trivial = the hostile item was delivered while a call was waiting; distinct = distinct (mutation class, history-shape) pairs",
+        runner: None,
         expand: None,
         quick: 60_000,
         thorough: 1_500_000,
@@ -78,6 +107,7 @@ pub fn lanes() -> Vec<Lane> {
         check: oracle::check_c14,
         nontrivial: sync_nontrivial,
         rule: "seeded SYNC scripts (2-9 calls over the whole LdapConn / EntryStream surface incl. modifiers set per call or earlier, streams with and without EntriesOnly, last_id, is_closed, get_peer_certificate, refused calls; server plans: results of every code class, silence with a timeout, delayed replies, disconnect at a random request index, unbind); each script runs once through Ldap / SearchStream on the simulator's executor and once through LdapConn / EntryStream (hook H5) on the same kind of paused-clock runtime; non-trivial = the script used a modifier, a stream, a timeout or met a disconnect; distinct = distinct history-shape hash of the asynchronous run",
+        runner: None,
         expand: None,
         quick: 60_000,
         thorough: 1_500_000,
@@ -90,6 +120,7 @@ pub fn lanes() -> Vec<Lane> {
         check: oracle::check_c16,
         nontrivial: paged_nontrivial,
         rule: "seeded PAGED scenarios (paging server model: 0-200 entries, honours / caps / ignores the page size, random cookies of 1-64 bytes incl. NUL and bytes >= 0x80, empty first page, no paging support; page sizes 0-1000; adapter alone, before or behind EntriesOnly; accompanying controls and options; caller-supplied paging control; streams read to the end or finished early; 1-2 concurrent clients); non-trivial = at least two pages were fetched; distinct = distinct history-shape hash",
+        runner: None,
         expand: None,
         quick: 100_000,
         thorough: 3_000_000,
@@ -102,6 +133,7 @@ pub fn lanes() -> Vec<Lane> {
         check: oracle::check_c02,
         nontrivial: seq_nontrivial,
         rule: "seeded SEQ scenarios (one handle, 2-10 calls over every operation kind with generated DNs, byte values incl. NUL / non-UTF-8 / 20 KB, empty and 50-element lists, filters rendered from generated syntax trees with three escaping styles, all search options, 0-4 controls; modifiers set per call, by a separate earlier call, overwritten, or followed by an operation that ignores them; calls refused before sending); non-trivial = at least one request carried controls or non-default search options, or a modifier was set before an operation that does not use it; distinct = distinct history-shape hash",
+        runner: None,
         expand: None,
         quick: 150_000,
         thorough: 4_000_000,
@@ -114,6 +146,7 @@ pub fn lanes() -> Vec<Lane> {
         check: oracle::check_c02,
         nontrivial: overlap,
         rule: "MUX scenarios: the request model is applied to concurrent handles (per-handle modifier state); non-trivial = two operations outstanding at once",
+        runner: None,
         expand: None,
         quick: 50_000,
         thorough: 1_000_000,
@@ -126,6 +159,7 @@ pub fn lanes() -> Vec<Lane> {
         check: oracle::check_c03,
         nontrivial: seq_resp_nontrivial,
         rule: "seeded SEQ scenarios: every response type with result codes 0..123 and random codes up to 2^31-1, empty / multi-byte / 20 KB matched-DN and diagnostic strings, 0-4 referral URIs, 0-4 response controls with absent / TRUE / explicit FALSE criticality and absent / empty / non-empty value, extended name/value in all presence combinations, server SASL credentials, every TLV encoded with 0-3 superfluous length octets; non-trivial = a response carried controls, referrals or a non-minimal length form; distinct = distinct history-shape hash",
+        runner: None,
         expand: None,
         quick: 150_000,
         thorough: 4_000_000,
@@ -138,6 +172,7 @@ pub fn lanes() -> Vec<Lane> {
         check: oracle::check_c03_mux,
         nontrivial: overlap,
         rule: "MUX scenarios: returned values against the response model under concurrency; non-trivial = two operations outstanding at once",
+        runner: None,
         expand: None,
         quick: 50_000,
         thorough: 1_000_000,
@@ -154,6 +189,7 @@ fn lanes_base() -> Vec<Lane> {
         check: oracle::check_c01,
         nontrivial: overlap,
         rule: "seeded MUX scenarios (1-5 handles, 1-8 steps each); non-trivial = at least two operations were outstanding at the server at once; distinct = distinct history-shape hash (sequence of event kinds and actors, values abstracted)",
+        runner: None,
         expand: None,
         quick: 200_000,
         thorough: 5_000_000,
@@ -166,6 +202,7 @@ fn lanes_base() -> Vec<Lane> {
         check: oracle::check_c10,
         nontrivial: stream_nontrivial,
         rule: "seeded STREAM scenarios (1-2 clients, 1-3 searches each: direct / EntriesOnly / search(), 0-12 items of three kinds, call sequences of up to 16 next/finish/state calls incl. after the end and repeated finish, per-item timeouts in a quarter of the runs); non-trivial = at least one call was made on a stream outside the Active state or a stream was finished before its end; distinct = distinct history-shape hash",
+        runner: None,
         expand: None,
         quick: 150_000,
         thorough: 4_000_000,
@@ -178,6 +215,7 @@ fn lanes_base() -> Vec<Lane> {
         check: oracle::check_c13,
         nontrivial: leak_nontrivial,
         rule: "seeded LEAK scenarios (1-3 clients, 1-5 rounds of 1-5 lifecycles each: completed/failed single operations, timeouts with late replies, abandons of finished / timed-out / in-flight operations, search(), direct and adapted streams read to the end / finished early / finished twice / timed out, unsolicited traffic; a barrier and a table snapshot at quiescence after every round); non-trivial = a checkpoint was taken after at least three completed calls; distinct = distinct history-shape hash",
+        runner: None,
         expand: None,
         quick: 100_000,
         thorough: 3_000_000,
@@ -190,6 +228,7 @@ fn lanes_base() -> Vec<Lane> {
         check: oracle::check_c05,
         nontrivial: ids_nontrivial,
         rule: "seeded IDS scenarios (2-6 handles, up to 60 operations, counter pre-positioned at 2^31-1-k with k<=64 or elsewhere, up to 40 pre-seeded in-use IDs incl. 1, MAX, low runs and IDs just above the counter; searches kept outstanding while the counter is moved to just below their ID; H3 yield rate up to 1.0); non-trivial = the allocator wrapped around or skipped an in-use ID in this run; distinct = distinct history-shape hash",
+        runner: None,
         expand: None,
         quick: 150_000,
         thorough: 4_000_000,
@@ -202,6 +241,7 @@ fn lanes_base() -> Vec<Lane> {
         check: oracle::check_c12,
         nontrivial: time_nontrivial,
         rule: "seeded TIME scenarios (1-3 clients, 1-6 operations each: timed / untimed single operations, search() and streams; timeouts 1 ms - 60 s; reply delays and item gaps at 0, T/2, T-1, T, T+1, 2T, 3T and random around T; silent servers; barriers); non-trivial = at least one call returned a timeout or returned a reply that arrived within 2 ms of its deadline; distinct = distinct history-shape hash",
+        runner: None,
         expand: None,
         quick: 150_000,
         thorough: 4_000_000,
@@ -214,6 +254,7 @@ fn lanes_base() -> Vec<Lane> {
         check: oracle::check_c05_mux,
         nontrivial: overlap,
         rule: "MUX scenarios as a by-product: server-side ID checks only; non-trivial = at least two operations outstanding at once",
+        runner: None,
         expand: None,
         quick: 50_000,
         thorough: 1_000_000,
@@ -293,6 +334,10 @@ fn hostile_nontrivial(_sc: &Scenario, rr: &RunResult) -> bool {
     rr.hist.iter().any(|e| matches!(&e.kind, EvKind::SrvEmit { label, .. } if label == "hostile"))
 }
 
+fn estab_nontrivial(_sc: &Scenario, rr: &RunResult) -> bool {
+    !rr.stats.counters.contains_key("estab.skipped")
+}
+
 fn cfg_strict_stream(_sc: &Scenario, c: &mut RunCfg) {
     c.next_after_end = true;
 }
@@ -343,10 +388,14 @@ pub struct Case {
     pub sched_seed: u64,
     pub cfg: RunCfg,
     pub label: String,
+    pub runner: Option<fn(&Scenario, &RunCfg) -> RunResult>,
 }
 
 impl Case {
     pub fn run(&self) -> RunResult {
+        if let Some(f) = self.runner {
+            return f(&self.sc, &self.cfg);
+        }
         let sched = match &self.trace {
             Some(t) => Sched::from_trace(t.clone(), Some(self.sched_seed)),
             None => Sched::from_seed(self.sched_seed),
@@ -364,7 +413,7 @@ pub fn cases(lane: &Lane, verif_seed: u64, index: u64) -> Vec<Case> {
     let sc = (lane.gen)(s.scenario);
     let mut cfg = RunCfg { tokio_seed: s.tokio, ..Default::default() };
     (lane.cfg)(&sc, &mut cfg);
-    vec![Case { sc, trace: None, sched_seed: s.sched, cfg, label: String::new() }]
+    vec![Case { sc, trace: None, sched_seed: s.sched, cfg, label: String::new(), runner: lane.runner }]
 }
 
 /// Execute case `case` of run `index` of a lane.
@@ -431,6 +480,17 @@ pub fn shape_hash(rr: &RunResult) -> u64 {
                 put(16);
                 put(*client as u64);
             }
+            EvKind::Note(n) if n.starts_with("estab ") => {
+                // establishment lanes: the observation minus times is the shape
+                if let Ok(o) = serde_json::from_str::<crate::estab::EstabObs>(&n[6..]) {
+                    put(family_id(&o.url));
+                    put(family_id(o.outcome.split(':').take(2).collect::<Vec<_>>().join(":").as_str()));
+                    put(family_id(&o.reached.join(",")));
+                    put(family_id(&o.peer.cleartext));
+                    put(o.peer.handshake_completed as u64);
+                    put(family_id(o.bind.as_deref().unwrap_or("-")));
+                }
+            }
             _ => put(17),
         }
     }
@@ -495,7 +555,7 @@ fn expand_fault(lane: &Lane, verif_seed: u64, index: u64) -> Vec<Case> {
     let ls = rref.s2c.len();
     let n_emissions = rref.hist.iter().filter(|e| matches!(e.kind, EvKind::SrvEmit { .. })).count();
     let flushes = rref.stats.counters.get("io.flushes").copied().unwrap_or(0) as usize;
-    let mut out = vec![Case { sc: base.clone(), trace: None, sched_seed: s.sched, cfg: cfg0(), label: "reference".into() }];
+    let mut out = vec![Case { sc: base.clone(), trace: None, sched_seed: s.sched, cfg: cfg0(), label: "reference".into(), runner: None }];
     let thorough = tier() == "thorough";
     let stride_s = if thorough || ls <= 400 { 1 } else { ls / 400 + 1 };
     let stride_c = if thorough || lc <= 400 { 1 } else { lc / 400 + 1 };
@@ -505,10 +565,10 @@ fn expand_fault(lane: &Lane, verif_seed: u64, index: u64) -> Vec<Case> {
         sc.faults = vec![f];
         let k = out.len() as u64;
         if fresh {
-            out.push(Case { sc, trace: None, sched_seed: mix(&[s.sched, k]), cfg: cfg0(), label });
+            out.push(Case { sc, trace: None, sched_seed: mix(&[s.sched, k]), cfg: cfg0(), label, runner: None });
         } else {
             let cfg = RunCfg { diverge_seed: Some(mix(&[s.sched, k, 5])), ..cfg0() };
-            out.push(Case { sc, trace: Some(rref.trace.clone()), sched_seed: mix(&[s.sched, k, 6]), cfg, label });
+            out.push(Case { sc, trace: Some(rref.trace.clone()), sched_seed: mix(&[s.sched, k, 6]), cfg, label, runner: None });
         }
     };
     let kinds = [IoKind::Reset, IoKind::Aborted, IoKind::TimedOut, IoKind::Other, IoKind::BrokenPipe];
@@ -547,7 +607,7 @@ fn expand_fault(lane: &Lane, verif_seed: u64, index: u64) -> Vec<Case> {
         let mut sc = base.clone();
         sc.plan.hostile = Some(Hostile { before_emission: j, class: "not-a-sequence".into(), bytes: vec![0x04, 0x01, 0x00], must_end: true, nest: None, outer_inflated: false });
         let k = out.len() as u64;
-        out.push(Case { sc, trace: Some(rref.trace.clone()), sched_seed: mix(&[s.sched, k, 6]), cfg: RunCfg { diverge_seed: Some(mix(&[s.sched, k, 5])), ..cfg0() }, label: format!("undecodable-before-emission#{j}") });
+        out.push(Case { sc, trace: Some(rref.trace.clone()), sched_seed: mix(&[s.sched, k, 6]), cfg: RunCfg { diverge_seed: Some(mix(&[s.sched, k, 5])), ..cfg0() }, label: format!("undecodable-before-emission#{j}"), runner: None });
     }
     // unbind issued by one handle at every step index; handles dropped at every step index
     for (ci, cs) in base.clients.iter().enumerate() {
@@ -561,11 +621,11 @@ fn expand_fault(lane: &Lane, verif_seed: u64, index: u64) -> Vec<Case> {
                 sc.faults = vec![Fault::ShutdownErr { kind: IoKind::Other }];
             }
             let k = out.len() as u64;
-            out.push(Case { sc, trace: None, sched_seed: mix(&[s.sched, k]), cfg: cfg0(), label: format!("unbind@c{ci}p{p}") });
+            out.push(Case { sc, trace: None, sched_seed: mix(&[s.sched, k]), cfg: cfg0(), label: format!("unbind@c{ci}p{p}"), runner: None });
             let mut sc = base.clone();
             sc.clients[ci].steps.insert(p, Step::DropHandle);
             let k = out.len() as u64;
-            out.push(Case { sc, trace: None, sched_seed: mix(&[s.sched, k]), cfg: cfg0(), label: format!("drophandle@c{ci}p{p}") });
+            out.push(Case { sc, trace: None, sched_seed: mix(&[s.sched, k]), cfg: cfg0(), label: format!("drophandle@c{ci}p{p}"), runner: None });
         }
     }
     out
@@ -601,6 +661,7 @@ pub fn fault_lane() -> Lane {
         check: oracle::check_c04,
         nontrivial: fault_nontrivial,
         rule: "per index one seeded exchange (1-3 clients x 1-4 operations/streams + one late operation); a fault-free reference run records the request/response byte lengths Lc, Ls and the decision trace; then one run per (kind, offset): EOF and reset at every response byte boundary 0..=Ls, write error and server-close at every request byte boundary 0..=Lc (stride >1 only in the quick tier for L>400), other error kinds and fresh-schedule repeats at a sample, every flush, an undecodable frame before every response frame, unbind and handle drop at every step index; sweep runs replay the reference trace until the fault fires; non-trivial = the fault fired while a call was waiting; distinct = distinct history-shape hash among those",
+        runner: None,
         expand: Some(expand_fault),
         quick: 400,
         thorough: 12_000,
@@ -628,7 +689,7 @@ fn expand_frame(lane: &Lane, verif_seed: u64, index: u64) -> Vec<Case> {
         })
         .max()
         .unwrap_or(0);
-    let mut out = vec![Case { sc: base.clone(), trace: None, sched_seed: s.sched, cfg: cfg0(), label: "reference/whole".into() }];
+    let mut out = vec![Case { sc: base.clone(), trace: None, sched_seed: s.sched, cfg: cfg0(), label: "reference/whole".into(), runner: None }];
     let mut rng = crate::rng::Rng::new(mix(&[s.run, 99]));
     let thorough = tier() == "thorough";
     let mut push = |chunking: Chunking, max_read: usize, pend: u32, rcap: bool, label: String, out: &mut Vec<Case>| {
@@ -638,7 +699,7 @@ fn expand_frame(lane: &Lane, verif_seed: u64, index: u64) -> Vec<Case> {
         sc.knobs.read_pending_pm = pend;
         sc.knobs.random_read_cap = rcap;
         let k = out.len() as u64;
-        out.push(Case { sc, trace: None, sched_seed: mix(&[s.sched, k]), cfg: cfg0(), label });
+        out.push(Case { sc, trace: None, sched_seed: mix(&[s.sched, k]), cfg: cfg0(), label, runner: None });
     };
     // every two-chunk split point of the burst
     let limit = if thorough { 4000 } else { 500 };
@@ -701,6 +762,7 @@ pub fn frame_lane() -> Lane {
         check: oracle::check_c06,
         nontrivial: frame_nontrivial,
         rule: "per index one seeded burst of 1-12 response frames (7 bytes to 65 KB, random legal length forms) for pending operations; partitions: every two-chunk split point (stride >1 only above 500 / 4000 points), three-chunk splits, one byte at a time, frame-aligned and +-1, random chunks, everything at once, each under max_read in {1,2,7,64,4096,unlimited} and with Pending-despite-data; chunks after the first arrive one simulated millisecond later; non-trivial = a delivery or a read ended inside a frame; distinct = distinct history-shape hash",
+        runner: None,
         expand: Some(expand_frame),
         quick: 250,
         thorough: 6000,
